@@ -6,6 +6,7 @@
              T:idx:ty:pvk:pva:annex:leafhash:pos   taproot_sighash  (annex "-" none | "x<hex>"; leafhash "-" none)
              K:idx:ty:pvk:pva           taproot_key_spend_signature_hash
              P:idx:ty:pvk:pva:leafhash  taproot_script_spend_signature_hash
+             Q:idx:ty:pvk:pva:script    taproot_script_spend_signature_hash(ScriptPath::with_defaults(script))   (the library computes the leaf hash)
              W:i:stack                  *witness_mut(i) = stack     (stack = consensus hex of Vec<Vec<u8>>)
            prevouts pvk:pva = all:-  (All(spent)) | one:j (One(j, spent[j])) | onex:j=<txout hex> (One(j, that output))
    result: ';'-separated  ok:<digest hex> | err:<class> | panic | w1 | w0 *)
@@ -68,7 +69,14 @@ Definition parse_op (genesis : bytes) (s : bytes) : option op :=
         match nat_of_dec idx, parse_schnorr ty, parse_pv a b with Some i, Some t, Some pv => Some (OTapKey i pv t genesis) | _, _, _ => None end
       else None
   | [k; idx; ty; a; b; lh] =>
-      if bytes_eqb k (L "P") then
+      if bytes_eqb k (L "Q") then
+        (* script-spend through ScriptPath::with_defaults(script): the leaf hash is TapLeafHash::from_script(script, TAPSCRIPT), i.e. the tagged
+           hash of  leaf version || compact_size(len) || script  (the leaf_msg of Model/Taproot.v, C15) *)
+        match nat_of_dec idx, parse_schnorr ty, parse_pv a b, hexarg lh with
+        | Some i, Some t, Some pv, Some sc =>
+            Some (OTapScript i pv (tagged TAG_TAPLEAF (n2b TAPROOT_LEAF_TAPSCRIPT :: vi_enc (N.of_nat (length sc)) ++ sc)) t genesis)
+        | _, _, _, _ => None end
+      else if bytes_eqb k (L "P") then
         match nat_of_dec idx, parse_schnorr ty, parse_pv a b, hexarg lh with
         | Some i, Some t, Some pv, Some h => Some (OTapScript i pv h t genesis) | _, _, _, _ => None end
       else None
